@@ -70,40 +70,66 @@ class WalletLedgerBounded:
         return ok and recorded == len(seen)
 
 
-def signer_history(kind, key, ops):
-    """ops over a Signer object: 'sign' | 'wipe' | 'close'(context exit); returns per-op outcome"""
+def signer_history(kind, key, ops, curve="secp256k1", hash_name="sha256"):
+    """ops over a Signer object: 'sign' | 'wipe' | 'close'(context exit) | 'on' / 'off' (the
+    process-wide backend switch); returns per-op outcome, a signature as its bytes"""
+    import hashlib
+    from btclib.curves import CURVES
+    from btclib.curves.curve import is_libsecp256k1_serving, set_libsecp256k1_serving
     from btclib.ecc import dsa, ssa
-    s = (dsa.Signer if kind == "dsa" else ssa.Signer)(key)
-    out = []
-    for op in ops:
-        if op == "sign":
-            try:
-                s.sign_(bytes(32))
-                out.append("signed")
-            except BTClibValueError:
-                out.append("refused")
-        elif op == "wipe":
-            s.wipe()
-            out.append("wiped")
-        else:
-            s.__exit__(None, None, None)
-            out.append("closed")
-    return out
+    ec, hf = CURVES[curve], getattr(hashlib, hash_name)
+    mod = dsa if kind == "dsa" else ssa
+    was = is_libsecp256k1_serving()
+    msg = hf(b"history").digest()
+    try:
+        s = mod.Signer(key, ec, hf)
+        out = []
+        for op in ops:
+            if op == "sign":
+                try:
+                    sig = s.sign_(msg) if kind == "dsa" else s.sign_(msg, bytes(len(msg)))
+                    out.append(sig if isinstance(sig, bytes) else sig.serialize())
+                except BTClibValueError:
+                    out.append("refused")
+            elif op == "wipe":
+                s.wipe()
+                out.append("wiped")
+            elif op == "close":
+                s.__exit__(None, None, None)
+                out.append("closed")
+            else:
+                try:
+                    set_libsecp256k1_serving(serving=op == "on")
+                except BTClibValueError:
+                    pass
+                out.append(op)
+        set_libsecp256k1_serving(serving=was)
+        fresh = dsa.sign_(msg, key, None, True, ec, hf) if kind == "dsa" else ssa.sign_(msg, key, bytes(len(msg)), ec, hf)
+        return out, (fresh if isinstance(fresh, bytes) else fresh.serialize())
+    finally:
+        set_libsecp256k1_serving(serving=was)
 
 
 def _gen_signer(rng):
-    return dict(kind=rng.choice(["dsa", "ssa"]), key=rng.randrange(1, C.n), ops=[rng.choice(["sign", "sign", "wipe", "close"]) for _ in range(rng.randrange(1, 8))])
+    curve, hash_name = rng.choice([("secp256k1", "sha256"), ("secp256k1", "sha256"), ("secp256k1", "sha512"), ("secp256r1", "sha256"), ("secp160k1", "sha1")])
+    from btclib.curves import CURVES
+    return dict(kind=rng.choice(["dsa", "ssa"]), key=rng.randrange(1, CURVES[curve].n), curve=curve, hash_name=hash_name,
+                ops=[rng.choice(["sign", "sign", "sign", "wipe", "close", "on", "off"]) for _ in range(rng.randrange(1, 8))])
 
 
-@contract("contracts.c_history.signer_history", gen=_gen_signer, props="C20 C04", both_arms=True, n_quick=150, n_thorough=3000,
-          rule="call sequences of length 1..7 over sign / wipe / close on dsa.Signer and ssa.Signer")
+@contract("contracts.c_history.signer_history", gen=_gen_signer, props="C20 C04", both_arms=True, n_quick=200, n_thorough=4000,
+          rule="call sequences of length 1..7 over sign / wipe / close / backend on / backend off on dsa.Signer and ssa.Signer; secp256k1+sha256 (delegated arm), other curves and hashes (Python arm)")
 class SignerWipeBounded:
+    """a wiped or closed signer never signs again; a live one gives, whatever the backend has
+    been switched to in between, the signature the stateless sign_ gives for the same key"""
+
     def post_dead_after_wipe(ops, result):
+        trace, fresh = result
         dead = False
         ok = True
-        for op, r in zip(ops, result):
+        for op, r in zip(ops, trace):
             if op == "sign":
-                ok = ok and r == ("refused" if dead else "signed")
-            else:
+                ok = ok and (r == "refused" if dead else r == fresh)
+            elif op in ("wipe", "close"):
                 dead = True
         return ok
